@@ -647,6 +647,9 @@ def check(ctx):
     check_seek_helpers(ctx)
     check_merger(ctx)
     check_two_level(ctx)
-    from . import c06, c13
+    from . import c06, c13, c14
+    c14.check_level_loops(ctx)     # an iterator has a child for every level
+    from . import c04
+    c04.check_write(ctx)           # an iterator's sequence never covers a batch that is still being inserted
     c06.check_iter_filter(ctx)     # entries newer than the iterator's sequence are hidden, tombstones hide older values
     c13.check_pinning(ctx)         # an iterator pins the memtables and the version (hence its files) it reads
